@@ -271,3 +271,24 @@ pub fn paging_audit(name: &str, f: &dyn Fn(Option<String>, Option<u32>) -> Optio
     }
     None
 }
+
+thread_local! {
+    /// Number of handler invocations of the contract under test inside the current top-level
+    /// transaction.  cw-multi-test has no gas, so unbounded re-entrancy would overflow the stack of
+    /// the harness; a real chain runs out of gas.  The budget is far above anything correct code needs.
+    pub static CALL_BUDGET: std::cell::Cell<u32> = const { std::cell::Cell::new(0) };
+}
+pub const MAX_CALLS_PER_TX: u32 = 64;
+
+/// Call at the start of every top-level transaction.
+pub fn reset_call_budget() {
+    CALL_BUDGET.with(|c| c.set(0));
+}
+
+/// Call at the start of every handler invocation; `true` = budget exhausted (stands for out of gas).
+pub fn call_budget_exhausted() -> bool {
+    CALL_BUDGET.with(|c| {
+        c.set(c.get() + 1);
+        c.get() > MAX_CALLS_PER_TX
+    })
+}
